@@ -407,6 +407,7 @@ TypeKnown(P, t) == t.k # "c" \/ HasClass(P, t.n)
 (* ------------------------------------------------------------------ statements *)
 CondOk(C, t) == IF C.err # "" \/ t.k = "any" THEN C
                 ELSE IF t = TVoid THEN Err(C, "void-operand")
+                ELSE IF t.k = "null" THEN Err(C, "null-nonclass")       \* null is never implicitly converted
                 ELSE IF IsBoolLike(t) THEN C ELSE Unspec(C)
 
 RECURSIVE S(_,_), Ss(_,_)
@@ -509,7 +510,7 @@ CheckCtor(P, cl, k) ==
                b == cl.base
                C2 == IF explicitSuper \/ b = "" \/ ~HasClass(P, b) THEN C1
                      ELSE IF \E i \in 1..Len(Class(P, b).ctors) : Class(P, b).ctors[i].params = <<>> /\ Class(P, b).ctors[i].vis # "private" THEN C1
-                     ELSE Unspec(C1)
+                     ELSE Err(C1, "implicit-super")      \* RULE: without super(...) the base must expose an accessible zero-argument constructor
            IN IF C2.err = "" /\ need \ got # {} THEN Err(C2, "final-unassigned") ELSE C2
 
 RECURSIVE Fold(_,_,_)
@@ -524,8 +525,11 @@ CheckClass(P, cl) ==
        C5 == IF cl.tparams # <<>> THEN Unspec(C4) ELSE C4
    IN C5
 
+\* RULE (names are global): a function or class name is declared once
+Dups(seq) == \E i, j \in 1..Len(seq) : i < j /\ seq[i].name = seq[j].name
 CheckProgram(P) ==
-   LET C0 == Ctx(P, "", FALSE, "fn", TVoid)
+   LET C00 == Ctx(P, "", FALSE, "fn", TVoid)
+       C0 == IF Dups(P.funcs) \/ Dups(P.classes) THEN Err(C00, "redeclared") ELSE C00
        C1 == Fold(LAMBDA cl : CheckClass(P, cl), P.classes, C0)
    IN Fold(LAMBDA f : CheckFn(P, f), P.funcs, C1)
 
